@@ -230,3 +230,23 @@ Fixpoint faithful (s : list ans) : Prop :=
   | Chunk k _ :: s' => 1 <= k /\ faithful s'
   | Fault _ _ :: _ => False
   end.
+
+(** The Read calls of one [Recv] on a stream whose first item announces [N] bytes in all:
+    each call asks for exactly what is missing of the header (while fewer than 8 bytes
+    have been received) or of the item (afterwards), never for nothing, and is given at
+    most that. [c] = bytes received before the call. *)
+Fixpoint trace_ok (N c : Z) (tr : list (Z * Z)) : Prop :=
+  match tr with
+  | [] => True
+  | (w, n) :: r => w = (if c <? 8 then 8 else N) - c /\ 0 < w /\ 0 <= n <= w /\ trace_ok N (c + n) r
+  end.
+
+(** What the transport still holds after each message of [frames ++ tail] has been received. *)
+Fixpoint tails (frames : list (list Z)) (tail : list Z) : list (list Z) :=
+  match frames with
+  | [] => []
+  | _ :: fs => (concat fs ++ tail) :: tails fs tail
+  end.
+
+(** The transport after the last of a series of [Recv] calls. *)
+Definition last_tr {M} (t : tr) (rs : list (rres M)) : tr := last (map r_tr rs) t.
